@@ -5,9 +5,9 @@ package PKGNAME
 // the overflow pre-conditions, subPadding, callMulHint, mulMod, checkZero, enforceWidth, packLimbs) -
 // are executed against a frontend.API stand-in whose variables are elements of a SMALL native field
 // GF(q), q = NATIVEQ (machine arithmetic modulo q on 32-bit words, so native wrap-around is real), for
-// a small emulated modulus p = EMMOD on NbLimbs = EMNBLIMBS limbs of 3 bits. Elements are the
+// a small emulated modulus p = EMMOD on NbLimbs = EMNBLIMBS limbs of EMLIMBBITS bits. Elements are the
 // representations the library itself produces: internal elements on 0..3 limbs with a tracked overflow
-// f (every limb below 2^(3+f)), and constants.
+// f (every limb below 2^(w+f)), and constants.
 //   adversarial reading : every hint output (quotient, remainder, carries) is an ARBITRARY native field
 //                         element; range checks and assertions are what the prover has to satisfy; the
 //                         deferred multiplication checks are replaced by what the random-point test
